@@ -6,11 +6,14 @@ from fractions import Fraction
 
 from .. import gen1, gennd, history1
 from ..core import rs
+from . import coll_parts
 from .base1 import Hist1Prop
 from .c09 import rand_nd_op
 
 SNAP1 = ("bins", "freq", "err2", "under", "over", "inner", "dtype", "keep", "adaptive", "stats")
 SNAPN = ("bins", "shape", "freq", "err2", "missed", "dtype", "keep", "names", "adaptive")
+# the clauses of the HistogramCollection cases (coll_parts, shared with C05) that belong to this property
+COLL_SIGS = ("not_independent", "copy_differs", "operand_modified", "refused_changed", "unusable")
 
 
 def view(r, fields):
@@ -25,12 +28,16 @@ class C12(Hist1Prop):
             "copy without contents, +, -, *, /, c*h, sum([h]), normalize, merge_bins, slice, mask, index array, projection, "
             "integer / slice selection, T, accumulate, partial_normalize) -> a history of 1-4 mutations (fill / fill_n incl. bin "
             "growth, += -= *= /=, set_dtype, in-place normalize / merge) applied to the source or to the derived object; "
-            "after every step every other live histogram is compared with its snapshot. non-trivial = the mutation really "
+            "after every step every other live histogram is compared with its snapshot. One case in 32: a "
+            "HistogramCollection (coll_parts, as in C05): its copy() and the original are changed in turn, members "
+            "snapshotted around sum / normalize_all / normalize_bins / copy / add. non-trivial = the mutation really "
             "changed its target; distinct = op-list hash")
     FIELDS = None
     TOL = Fraction(1, 10**5)   # float32 contents after normalisation: independence, not rounding, is the subject
 
     def gen_case(self, rng, k, tier):
+        if k % 32 == 9:
+            return coll_parts.gen(rng)
         if rng.random() < 0.4:
             return self.gen_nd(rng)
         b, pairs, w = history1.small_bins(rng, adaptive_share=0.45)
@@ -147,6 +154,8 @@ class C12(Hist1Prop):
 
     # the dimension of a derived register is only known at run time: resolve the "_coord" markers step by step
     def run_impl(self, case):
+        if case.get("sub") == "coll":
+            return coll_parts.run_impl(case)
         if case.get("kind") != "histn":
             return super().run_impl(case)
         from .. import implnd
@@ -198,6 +207,8 @@ class C12(Hist1Prop):
         return implnd.step(s, op, log)
 
     def model_case(self, case, io):
+        if case.get("sub") == "coll":
+            return coll_parts.model_case(case, io)
         if case.get("kind") == "histn":
             if any(r is not None and r["_class"] == "Histogram1D" for o in io["outs"] for r in o["regs"]):
                 return None    # a 1-D result inside an ND history: oracle only (the ND model has no under/overflow slots)
@@ -207,6 +218,10 @@ class C12(Hist1Prop):
         return case
 
     def diff(self, case, model_ok, io):
+        if case.get("sub") == "coll":
+            # statistics of arbitrary doubles carry rounding the exact model does not have; they are C14's subject, and
+            # the oracle compares them between snapshots of the same object (exactly)
+            return coll_parts.diff(case, model_ok, io, coll_parts.ALL_FIELDS - {"stats"}, self.TOL)
         if case.get("kind") == "histn":
             # `fill` return values of 1-D registers are not modelled in the ND language
             import copy as _c
@@ -218,6 +233,9 @@ class C12(Hist1Prop):
         return super().diff(case, model_ok, io)
 
     def shrink_candidates(self, case):
+        if case.get("sub") == "coll":
+            yield from coll_parts.shrink_candidates(case)
+            return
         ops = case["ops"]
         first_mut = next(i for i, o in enumerate(ops) if o.get("out") == 2) + 1
         for k in range(len(ops) - 1, first_mut - 1, -1):
@@ -226,6 +244,8 @@ class C12(Hist1Prop):
             yield c
 
     def oracle(self, case, io):
+        if case.get("sub") == "coll":
+            return coll_parts.oracle(case, io, only=COLL_SIGS)
         outs = io["outs"]
         ops = io.get("resolved", case["ops"])
         nd = case.get("kind") == "histn"
@@ -266,6 +286,8 @@ class C12(Hist1Prop):
         return fails[:6]
 
     def nontrivial(self, case, io):
+        if case.get("sub") == "coll":
+            return coll_parts.mutation_changed_target(case, io)
         outs = io["outs"]
         first_mut = next((i for i, o in enumerate(case["ops"]) if o.get("out") == 2), 0) + 1
         return any(outs[k]["regs"] != outs[k - 1]["regs"] for k in range(first_mut, len(outs)))
